@@ -13,8 +13,11 @@ structure LogI (x : Conn) : Prop where
   handed_log : x.handed = handedOf x.log
   handed_upg : hasUpg x.log = false → x.handed = []
   cons : x.heads.flatten ++ x.handed ++ x.rbuf ++ x.sockIn = x.sent
+  upg_rbuf : hasUpg x.log = true → x.rbuf = []
+  wire : daemonWire x.log ++ x.wbuf = x.outq.flatten
+  upg_wbuf : hasUpg x.log = true → x.wbuf = []
 
-theorem logI_init : LogI {} := by constructor <;> simp [okLog]
+theorem logI_init : LogI {} := by constructor <;> simp [okLog, daemonWire]
 
 theorem LogI.active_noUpg {x} (h : LogI x) (ha : x.loc = .active ∨ x.loc = .new ∨ x.loc = .none) : hasUpg x.log = false := by
   cases hh : hasUpg x.log with
@@ -36,21 +39,34 @@ theorem plain_notUpg {e : Ev} (h : e.plain = true) : e.isUpgrade = false := by
   cases e <;> simp_all [Ev.plain, Ev.isUpgrade]
 theorem io_notUpg {e : Ev} (h : e.isIo = true) : e.isUpgrade = false := by
   cases e <;> simp_all [Ev.isIo, Ev.isUpgrade]
+theorem daemonWire_plain {e : Ev} (h : e.plain = true) : daemonWire [e] = [] := by
+  cases e <;> simp_all [daemonWire, Ev.plain]
+/-- daemon I/O that moves no bytes towards the client -/
+def Ev.isIoQuiet : Ev → Bool
+  | .ioRecv _ | .ioShutdown => true
+  | _ => false
+theorem quiet_io {e : Ev} (h : e.isIoQuiet = true) : e.isIo = true := by
+  cases e <;> simp_all [Ev.isIoQuiet, Ev.isIo]
+theorem daemonWire_quiet {e : Ev} (h : e.isIoQuiet = true) : daemonWire [e] = [] := by
+  cases e <;> simp_all [daemonWire, Ev.isIoQuiet]
 
 theorem logI_emit_plain {x} (h : LogI x) {e : Ev} (he : e.plain = true) : LogI (x.emit e) := by
   have h1 := handedOf_plain he; have h2 := plain_notIo he; have h3 := plain_notUpg he
-  cases h; constructor <;> simp_all [Conn.emit, okLog_append, handedOf_append]
+  have h4 := daemonWire_plain he
+  cases h; constructor <;> simp_all [Conn.emit, okLog_append, handedOf_append, daemonWire_append]
 
-theorem logI_emit_io {x} (h : LogI x) (ha : x.loc = .active) {e : Ev} (he : e.isIo = true) : LogI (x.emit e) := by
+theorem logI_emit_io {x} (h : LogI x) (ha : x.loc = .active) {e : Ev} (hq : e.isIoQuiet = true) : LogI (x.emit e) := by
+  have he := quiet_io hq
   have h0 := h.active_noUpg (Or.inl ha)
   have h1 := handedOf_io he; have h3 := io_notUpg he
-  cases h; constructor <;> simp_all [Conn.emit, okLog_append, handedOf_append]
+  have h4 := daemonWire_quiet hq
+  cases h; constructor <;> simp_all [Conn.emit, okLog_append, handedOf_append, daemonWire_append]
 
 
 theorem logI_notifyCompleted {x} (h : LogI x) (code : Nat) : LogI (notifyCompleted x code) := by
   unfold notifyCompleted
   split
-  · cases h; constructor <;> simp_all [okLog_append, handedOf_append, handedOf, Ev.isIo, Ev.isUpgrade]
+  · cases h; constructor <;> simp_all [okLog_append, handedOf_append, handedOf, Ev.isIo, Ev.isUpgrade, daemonWire_append, daemonWire]
   · exact h
 
 theorem logI_closeConn {x} (h : LogI x) (ha : x.loc = .active) (code : Nat) : LogI (closeConn x code) := by
@@ -81,14 +97,20 @@ theorem logI_tryQueue (cfg) (sh : Bool) (l : List Nat) : ∀ {x}, LogI x → Log
     · exact logI_emit_plain (logI_queueResponse h cfg sh rid) rfl
     · exact ih (logI_emit_plain (logI_queueResponse h cfg sh rid) rfl)
 
-theorem logI_startReply {x} (h : LogI x) (cfg) : LogI (startReply cfg x) := by
+theorem logI_startReply {x} (h : LogI x) (ha : x.loc = .active) (cfg) : LogI (startReply cfg x) := by
   unfold startReply
   split
   · exact h
-  · cases h; constructor <;> simp_all
+  · have h0 := h.active_noUpg (Or.inl ha)
+    have hw := h.wire
+    obtain ⟨a1, a2, a3, a4, a5, a6, a7, a8, a9⟩ := h
+    refine ⟨a1, a2, a3, a4, a5, a6, a7, ?_, ?_⟩
+    · show daemonWire x.log ++ (x.wbuf ++ _) = (x.outq ++ [_]).flatten
+      rw [← List.append_assoc, a8]; simp
+    · intro hu; rw [h0] at hu; cases hu
 
 theorem logI_handlerEntered {x} (h : LogI x) (fin : Bool) : LogI (handlerEntered x fin) := by
-  cases h; constructor <;> simp_all [handlerEntered, okLog_append, handedOf_append, handedOf, Ev.isIo, Ev.isUpgrade]
+  cases h; constructor <;> simp_all [handlerEntered, okLog_append, handedOf_append, handedOf, Ev.isIo, Ev.isUpgrade, daemonWire_append, daemonWire]
 
 theorem logI_firstCallOnly {x} (h : LogI x) : LogI (firstCallOnly x) := by
   have h0 := logI_handlerEntered h false
@@ -100,7 +122,7 @@ theorem logI_replyCall {x} (h : LogI x) (ha : x.loc = .active) (cfg) (sh fin : B
   simp only
   split
   · exact logI_closeConn (logI_tryQueue cfg sh _ (logI_handlerEntered h fin)) (by simp [ha]) _
-  · exact logI_startReply (logI_tryQueue cfg sh _ (logI_handlerEntered h fin)) cfg
+  · exact logI_startReply (logI_tryQueue cfg sh _ (logI_handlerEntered h fin)) (by simp [ha]) cfg
 
 theorem logI_handlerCalls {x} (h : LogI x) (ha : x.loc = .active) (cfg) (sh : Bool) :
     LogI (handlerCalls cfg sh x) := by
@@ -137,8 +159,10 @@ theorem logI_handleWrite {x} (h : LogI x) (n : Nat) : LogI (handleWrite x n) := 
   unfold handleWrite
   split
   · rename_i hg
-    have h1 := logI_emit_io h hg.1 (e := .ioSend (x.wbuf.take (min n x.wbuf.length))) rfl
-    cases h1; constructor <;> simp_all [Conn.emit]
+    have h0 := h.active_noUpg (Or.inl hg.1)
+    have hw := h.wire
+    cases h; constructor <;>
+      simp_all [Conn.emit, okLog_append, handedOf_append, handedOf, Ev.isIo, Ev.isUpgrade, daemonWire_append, daemonWire]
   · exact h
 
 theorem logI_replyDone {x} (h : LogI x) : LogI (replyDone x) := by
@@ -166,7 +190,7 @@ theorem logI_upgradeActionClose {x} (h : LogI x) : LogI (upgradeActionClose x).1
     · exact logI_emit_plain (logI_markAppClosed h) rfl
 
 /-- the hand-over itself: state UPGRADE, internal suspend, upgrade handler called -/
-theorem logI_handOver {cfg x} (hl : Life cfg x) (h : LogI x) (ha : x.loc = .active) (rid : Nat) :
+theorem logI_handOver {cfg x} (hl : Life cfg x) (h : LogI x) (ha : x.loc = .active) (hw : x.wbuf = []) (rid : Nat) :
     LogI (handOver (internalSuspend (takeExtra x)) rid x.rbuf) := by
   have hr := hl.active_resuming ha
   have hn := h.active_noUpg (Or.inl ha)
@@ -174,11 +198,11 @@ theorem logI_handOver {cfg x} (hl : Life cfg x) (h : LogI x) (ha : x.loc = .acti
   have hc := h.cons
   unfold internalSuspend
   simp only [takeExtra, hr, handOver]
-  cases h; constructor <;> simp_all [okLog_append, handedOf_append, handedOf, Ev.isIo, Ev.isUpgrade]
+  cases h; constructor <;> simp_all [okLog_append, handedOf_append, handedOf, Ev.isIo, Ev.isUpgrade, daemonWire_append, daemonWire]
 
-theorem logI_executeUpgrade {cfg x} (hl : Life cfg x) (h : LogI x) (ha : x.loc = .active) (rid : Nat) :
+theorem logI_executeUpgrade {cfg x} (hl : Life cfg x) (h : LogI x) (ha : x.loc = .active) (hw : x.wbuf = []) (rid : Nat) :
     LogI (executeUpgrade cfg x rid).1 := by
-  have h4 := logI_handOver hl h ha rid
+  have h4 := logI_handOver hl h ha hw rid
   unfold executeUpgrade
   simp only
   split
@@ -193,7 +217,7 @@ theorem logI_afterSend {cfg x} (hl : Life cfg x) (h : LogI x) : LogI (afterSend 
     split
     · exact h
     · split
-      · exact logI_executeUpgrade hl h hg.1 _
+      · exact logI_executeUpgrade hl h hg.1 (by simpa using hg.2.2) _
       · exact logI_finishOrdinary h hg.1
   · exact h
 
@@ -265,7 +289,7 @@ theorem logI_newToActive {cfg x} (hl : Life cfg x) (h : LogI x) : LogI (newToAct
       | none => rfl
       | some u => have := hl.urh_loc (by simp [hu]); simp_all
     have hnu := h.active_noUpg (Or.inr (Or.inl hn))
-    cases h; constructor <;> simp_all [Conn.emit, okLog_append, handedOf_append, handedOf, Ev.isIo, Ev.isUpgrade]
+    cases h; constructor <;> simp_all [Conn.emit, okLog_append, handedOf_append, handedOf, Ev.isIo, Ev.isUpgrade, daemonWire_append, daemonWire]
   · exact h
 
 theorem logI_cleanupOne {x} (h : LogI x) : LogI (cleanupOne x) := by
@@ -273,7 +297,7 @@ theorem logI_cleanupOne {x} (h : LogI x) : LogI (cleanupOne x) := by
   split
   · simp only
     split <;> (cases h; constructor <;>
-      simp_all [Conn.emit, okLog_append, handedOf_append, handedOf, Ev.isIo, Ev.isUpgrade, okLog])
+      simp_all [Conn.emit, okLog_append, handedOf_append, handedOf, Ev.isIo, Ev.isUpgrade, okLog, daemonWire_append, daemonWire])
   · exact h
 
 theorem ci_roundConn {cfg x} (h : CI cfg x) (sh scan : Bool) (a : Option IoAct) :
@@ -298,7 +322,7 @@ theorem logI_stopNew {cfg x} (hl : Life cfg x) (h : LogI x) (hn : x.loc = .new) 
     | some u => have := hl.urh_loc (by simp [hu]); simp_all
   unfold stopNew
   split <;> (cases h; constructor <;>
-    simp_all [Conn.emit, okLog_append, handedOf_append, handedOf, Ev.isIo, Ev.isUpgrade])
+    simp_all [Conn.emit, okLog_append, handedOf_append, handedOf, Ev.isIo, Ev.isUpgrade, daemonWire_append, daemonWire])
 
 theorem ci_emit_plain {cfg x} (h : CI cfg x) {e : Ev} (he : e.plain = true) : CI cfg (x.emit e) :=
   ⟨life_emit h.life e, logI_emit_plain h.logi he⟩
@@ -375,7 +399,7 @@ theorem ci_appRecvConn {cfg x} (h : CI cfg x) (hu : x.urh.isSome = true) (n : Na
   have h0 := h.logi
   have hc := h0.cons
   cases h0; constructor <;>
-    simp_all [appRecvConn, Conn.emit, okLog_append, handedOf_append, handedOf, Ev.isIo, Ev.isUpgrade]
+    simp_all [appRecvConn, Conn.emit, okLog_append, handedOf_append, handedOf, Ev.isIo, Ev.isUpgrade, daemonWire_append, daemonWire]
 
 theorem ci_appSendConn {cfg x} (h : CI cfg x) (bs : Bytes) : CI cfg (appSendConn x bs) :=
   ci_emit_plain h rfl
